@@ -2,7 +2,8 @@
    encode = ser_F o pack_ls, decode = unpack_ls o parse_F  (Fmt.v), where ls is the effective dialect:
    the format's own dialect merged with the caller's dialect (Dialect.merge).  The model has a class table
    (nested / inherited-flattened / self-referencing dataclasses, typing.Self, named tuples, typed dicts), enums,
-   discriminated unions, Any positions, Literal tags, lists / tuples / sets / frozensets, str-keyed mappings,
+   discriminated unions, Any positions, Literal tags, lists / tuples (variable and fixed length) / sets / frozensets,
+   str-keyed mappings,
    Optional and the text-rendered leaves.
    ser/parse (json, orjson, yaml, msgpack, tomli_w/tomllib), the stdlib leaf codecs and the user's strategy
    pairs are universally quantified functions constrained only by their assumed laws. *)
@@ -81,7 +82,9 @@ Definition ex_env : env :=
              ("opt", (TOpt TInt, true)); ("extra", (TAny, true));
              ("next", (TOpt TSelf, true)); ("kids", (TList (TData "Node"), false));
              ("shape", (TDiscr "kind" [("c", "Circle"); ("s", "Square")], false));
-             ("tags", (TColl CFrozenSet (TEnum "Color"), false)); ("pt", (TNamed "Pt", false)); ("td", (TTyped "Opts", false))]);
+             ("tags", (TColl CFrozenSet (TEnum "Color"), false)); ("pt", (TNamed "Pt", false)); ("td", (TTyped "Opts", false));
+             ("pair", (TFix "Pair", false))]);
+   ("Pair", [("i0", (TInt, false)); ("i1", (TLeaf KDate, false))]);
    ("Pt", [("x", (TInt, false)); ("day", (TOpt (TLeaf KDate), true))]);
    ("Opts", [("a", (TColl CTuple TStr, false)); ("b", (TLeaf KBytes, false))]);
    ("Circle", [("r", (TFloat, false)); ("at", (TLeaf KTime, false)); ("kind", (TLit "c", false))]);
@@ -92,7 +95,8 @@ Definition ex_leaf : pv :=
                ("opt", VInt 7%Z); ("extra", VStr "x"); ("next", VNone); ("kids", VList []);
                ("shape", VObj "Square" [("side", VInt 2%Z); ("kind", VStr "s")]);
                ("tags", VColl CFrozenSet []); ("pt", VNT "Pt" [VInt 0%Z; VLeaf KDate "2020-01-01"]);
-               ("td", VDict [("a", VColl CTuple []); ("b", VLeaf KBytes "")])].
+               ("td", VDict [("a", VColl CTuple []); ("b", VLeaf KBytes "")]);
+               ("pair", VColl CTuple [VInt 1%Z; VLeaf KDate "2020-01-01"])].
 Definition ex_val : pv :=
   VObj "Node" [("when", VLeaf KDatetime "2020-01-02T03:04:05"); ("blob", VLeaf KBytearray "ab"); ("raw", VLeaf KBytes "00");
                ("opt", VNone); ("extra", VList [VInt 1%Z; VDict [("k", VStr "v")]]);
@@ -100,7 +104,8 @@ Definition ex_val : pv :=
                ("shape", VObj "Circle" [("r", VFloat (FFin 1%Z)); ("at", VLeaf KTime "01:02:03"); ("kind", VStr "c")]);
                ("tags", VColl CFrozenSet [VEnum "Color" "RED"; VEnum "Color" "BLUE"]);
                ("pt", VNT "Pt" [VInt 3%Z; VLeaf KDate "2020-02-29"]);
-               ("td", VDict [("a", VColl CTuple [VStr "p"; VStr "q"]); ("b", VLeaf KBytes "0a")])].
+               ("td", VDict [("a", VColl CTuple [VStr "p"; VStr "q"]); ("b", VLeaf KBytes "0a")]);
+               ("pair", VColl CTuple [VInt (-5)%Z; VLeaf KDate "1999-12-31"])].
 Definition ex_enums : enums := [("Color", [("RED", EvStr "r"); ("BLUE", EvInt 2%Z)])].
 
 (* caller's dialect: bytes rendered by user strategy 0 (callable id 2) in both directions *)
